@@ -14,7 +14,7 @@ type vScan struct {
 	minBlk, maxBlk, sumBlk uint64
 	codecs                 map[multicodec.Code]uint64
 	hashes                 map[multicodec.Code]uint64
-	rootSeen               bool
+	rootSeen               []bool
 }
 
 func vScanAll(r io.Reader, maxBlocks int, opts ...Option) (*vScan, *BlockReader) {
@@ -23,6 +23,7 @@ func vScanAll(r io.Reader, maxBlocks int, opts ...Option) (*vScan, *BlockReader)
 	if err != nil {
 		return s, nil
 	}
+	s.rootSeen = make([]bool, len(br.Roots))
 	for i := 0; i <= maxBlocks; i++ {
 		blk, err := br.Next()
 		if err == io.EOF {
@@ -53,9 +54,9 @@ func vScanAll(r io.Reader, maxBlocks int, opts ...Option) (*vScan, *BlockReader)
 		p := c.Prefix()
 		s.codecs[multicodec.Code(p.Codec)]++
 		s.hashes[multicodec.Code(p.MhType)]++
-		for _, rt := range br.Roots {
+		for i, rt := range br.Roots {
 			if rt.Equals(c) {
-				s.rootSeen = true
+				s.rootSeen[i] = true
 			}
 		}
 	}
@@ -71,8 +72,9 @@ func VerifH_C13_InspectVsScanV1() {
 	if vTier() == 1 {
 		N = 14
 	}
-	root := vCidID("root")
-	hdr := vHeaderV1(root)
+	// two roots, possibly equal (duplicate roots are legal)
+	root, root2 := vCidID("root"), vCidID("root2")
+	hdr := vHeaderV1(root, root2)
 	in := vBytes("in", N)
 	n := vInt("n")
 	vAssume(n >= 0 && n <= N)
@@ -87,9 +89,10 @@ func VerifH_C13_InspectVsScanV1() {
 	vAssert("inspect-ok-iff-scan-ok", (ierr == nil) == scan.ok)
 	if ierr == nil && scan.ok {
 		vAssert("version", st.Version == 1)
-		vAssert("roots", len(st.Roots) == 1 && st.Roots[0].Equals(root))
+		vAssert("roots", len(st.Roots) == 2 && st.Roots[0].Equals(root) && st.Roots[1].Equals(root2))
+		allSeen := len(scan.rootSeen) == 2 && scan.rootSeen[0] && scan.rootSeen[1]
 		vAssert("block-count", st.BlockCount == scan.count)
-		vAssert("roots-present", st.RootsPresent == scan.rootSeen)
+		vAssert("roots-present", st.RootsPresent == allSeen)
 		vAssert("cid-lengths", st.MinCidLength == scan.minCid && st.MaxCidLength == scan.maxCid)
 		vAssert("block-lengths", st.MinBlockLength == scan.minBlk && st.MaxBlockLength == scan.maxBlk)
 		if scan.count > 0 {
@@ -104,7 +107,8 @@ func VerifH_C13_InspectVsScanV1() {
 		}
 		vCover("agree-nonempty", scan.count > 0)
 		vCover("agree-two-blocks", scan.count > 1)
-		vCover("root-present", scan.rootSeen)
+		vCover("root-present", allSeen)
+		vCover("duplicate-roots-present", allSeen && root.Equals(root2))
 	}
 	vCover("both-reject", ierr != nil && !scan.ok)
 }
